@@ -144,20 +144,24 @@ CLAIMED.update({
 })
 CLAIMED.update({
     'C09': dict(cat='proof', design='DESIGN.md §7 C09',
-        text='Theorems: names and keywords are compared after ASCII lower-casing; every escape form of every code point below U+0800 '
+        text='Theorems (unbounded, UnescFacts): for EVERY string css_unescape over the REGENERATED pattern RE_CSS_ESC equals the CSS escape '
+             'specification U (finditer of that pattern is characterised, then the substitution loop is followed); hence every spelling of an '
+             'identifier (literal characters, backslash-character, 1-6 hex digits of either case with any legal terminator) unescapes to it and '
+             'two spellings are one name to the parser. Also: names and keywords are compared after ASCII lower-casing; every escape form of every code point below U+0800 '
              'decodes to that code point (kernel computation on the model\'s css_unescape over the regenerated escape regexes); a '
              'committed corpus of 24 selectors x 3 respellings compiles to equal structures in the model. Differential: 4 respellings '
              'of each generated AST (white space/comments everywhere allowed, every escape form, quote styles, bare identifiers, '
              'case) must compile to the structure of the canonical spelling, also through the model parser.',
-        note='the unbounded print/parse theorem is not proved (partial).',
+        note='the escape layer is proved for all strings; the unbounded print/parse theorem for whole selectors (white space, comments, quotes) is not proved (partial).',
         technique='Coq parser model + kernel-checked escape/corpus facts + respelling differential'),
     'C10': dict(cat='proof', design='DESIGN.md §7 C10',
-        text='Theorem (kernel computation on the model parser and model escape): for ten shapes of every code point below U+0800 and of '
+        text='Theorem (unbounded, UnescFacts.unescape_escape): for EVERY string s, css_unescape(escape(s)) = s with NUL replaced by U+FFFD, over the '
+             'REGENERATED pattern RE_CSS_ESC. Theorem (kernel computation on the model parser and model escape): for ten shapes of every code point below U+0800 and of '
              'samples up to U+10FFFF incl. lone surrogates, "#"+escape(s), "."+escape(s)+">b" and "[a="+escape(s)+"]" compile to '
              'exactly the identifier s (NUL -> U+FFFD) and nothing after it is swallowed; escape is total and non-empty. '
              'Differential: escape() vs the model on every interesting code point class in every position (thorough: all 0x110000 '
              'code points), compiled structures with 9 follow contexts, selection on documents with near-miss values.',
-        note='the statement for all strings is not proved (partial).',
+        note='unescape(escape(s)) is proved for all strings; that the tokenizer takes escape(s) as ONE identifier token is proved only for the sampled shapes (partial).',
         technique='Coq model of escape + parser, bounded kernel proof + exhaustive differential'),
     'C20': dict(cat='proof', design='DESIGN.md §0, §7 C20',
         text='Theorems: pretty() terminates on every string (each regenerated token pattern is non-nullable, fallback branch, progress '
